@@ -251,6 +251,13 @@ func (g *Gen) optCase(i int) *Case {
 			args = []any{wide, other, narrow}
 		}
 	}
+	if n >= 2 && g.chance(0.08) {
+		// a selector that excludes a metric by name next to one that selects it: the two have
+		// nothing in common but the matcher value
+		al := matcherAlphabet()
+		args[0] = fmt.Sprintf(`{__name__%s"m",%s}`, g.pick("!=", "!~"), al[g.r.Intn(len(al))])
+		args[1] = g.pick("m", "m", "m{"+al[g.r.Intn(len(al))]+"}")
+	}
 	c.Query = fmt.Sprintf(t, args...)
 	c.Start = 300000
 	if g.chance(0.5) {
@@ -440,6 +447,11 @@ func (g *Gen) dnestCase(i int) *Case {
 		return fmt.Sprintf("%s%s (%s)", op, grp, arg)
 	}
 	q := agg(g.grouping(), agg(innerGrp, sel))
+	if g.chance(0.3) {
+		// one aggregation whose groups are split across the engines: the local re-aggregation must
+		// group exactly as the remote ones did
+		q = agg(innerGrp, sel)
+	}
 	switch g.r.Intn(5) {
 	case 0:
 		q = "1 + " + q
